@@ -9,4 +9,4 @@ Definition z_div_eucl := Z.div_eucl.
 Definition z_ltb := Z.ltb.
 Definition z_eqb := Z.eqb.
 Extraction "../ocaml/c13/model.ml" z_add z_mul z_opp z_div_eucl z_ltb z_eqb fvar_normalize default_normalize
-  avar_normalize case_normalize case_instance case_owned_tuple.
+  avar_normalize case_normalize case_instance case_owned_tuple case_named inst_coords.
